@@ -377,6 +377,7 @@ def run(repo: Repo, rep: Report, tier: str) -> None:
     rq = [s for s in walk_no_nested(na) if isinstance(s, ast.Assign) and norm(s.targets[0]) == "rq_roles"]
     rep.check(len(rq) == 1 and norm(rq[0].value) == "{uid: (item.scu_role, item.scp_role) for uid, item in self.requestor.role_selection.items()}", "mode-select", "acse.ACSE._negotiate_as_acceptor", rq[0] if rq else "rq_roles", "proposed roles must be passed as (scu_role, scp_role) per SOP class", mod=acse, node=na)
     check_config_copy(repo, rep)
+    check_registries_live(repo, rep)
 
 
 CONTEXT_FIELDS = ("abstract_syntax", "transfer_syntax", "scu_role", "scp_role")
@@ -415,3 +416,57 @@ def check_config_copy(repo, rep) -> None:
                 missing.append(f_ + (" (only under a condition)" if writes else ""))
         rep.check(not missing, "config-copy", f"transport.{helper.name}", helper, f"the hand-written copy of the supported contexts does not always carry {missing}: a configured value (e.g. scu_role = scp_role = False, 'refuse both roles') silently becomes 'not configured' and the context is negotiated with the default roles", mod=tr, node=helper)
     rep.floor("supported_contexts assignments in transport.py", n, 1)
+
+
+def check_registries_live(repo, rep, rule: str = "registry-live") -> None:
+    """register_uid() adds SOP classes at run time by writing into the per-service tables of sop_class.py
+    (the values of _SERVICE_TO_UID_GROUP). Whatever decides 'is this a storage / known SOP class' must read
+    those tables when it is asked: a set, list, tuple or dict *built from* one of them when the module is
+    imported is a snapshot that never sees a later registration - the unrestricted acceptor then treats a
+    registered storage UID as a non-storage one and rejects it. (A dict view such as `T.values()` is live and
+    is not a copy.)"""
+    rep.rule(rule, "no import-time copy of a SOP class table that register_uid() extends at run time")
+    from .c27 import pkg_modules
+
+    sm = repo.mod("sop_class")
+    regs = set()
+    for a in sm.tree.body:
+        if isinstance(a, ast.Assign) and norm(a.targets[0]) == "_SERVICE_TO_UID_GROUP" and isinstance(a.value, ast.Dict):
+            regs = {norm(v) for v in a.value.values if isinstance(v, ast.Name)}
+    rep.need(len(regs) >= 10, "sop_class._SERVICE_TO_UID_GROUP: the per-service tables were not found")
+    copiers = ("frozenset", "set", "list", "tuple", "sorted", "dict", "OrderedDict")
+    n = 0
+    for short, m in pkg_modules(repo):
+        scopes = [m.tree.body] + [c.body for c in ast.walk(m.tree) if isinstance(c, ast.ClassDef)]
+        for body in scopes:
+            for a in body:
+                if not isinstance(a, (ast.Assign, ast.AnnAssign)) or getattr(a, "value", None) is None:
+                    continue
+                n += 1
+                v = a.value
+                hit = None
+                for x in ast.walk(v):
+                    reads = lambda e: any(isinstance(y, ast.Name) and y.id in regs for y in ast.walk(e))  # noqa: E731
+                    if isinstance(x, ast.Call) and isinstance(x.func, ast.Name) and x.func.id in copiers and any(reads(arg) for arg in x.args):
+                        hit = x
+                    if isinstance(x, (ast.ListComp, ast.SetComp, ast.DictComp, ast.GeneratorExp)) and any(reads(g.iter) for g in x.generators):
+                        hit = x
+                    if isinstance(x, ast.Dict) and any(k is None and reads(val) for k, val in zip(x.keys, x.values)):
+                        hit = x
+                    if isinstance(x, ast.Call) and isinstance(x.func, ast.Attribute) and x.func.attr == "copy" and reads(x.func.value):
+                        hit = x
+                if hit is not None:
+                    tg = norm(a.targets[0] if isinstance(a, ast.Assign) else a.target)
+                    # a convenience list offered to the user (XxxPresentationContexts) is a documented snapshot; what
+                    # matters is a copy that the library's own run-time code consults
+                    users = []
+                    for short2, m2 in pkg_modules(repo):
+                        for f2 in ast.walk(m2.tree):
+                            if isinstance(f2, (ast.FunctionDef, ast.Lambda)) and any((isinstance(y, ast.Name) and y.id == tg and isinstance(y.ctx, ast.Load)) or (isinstance(y, ast.Attribute) and y.attr == tg and isinstance(y.ctx, ast.Load)) for y in ast.walk(f2)):
+                                users.append(f"{short2}.{getattr(f2, 'name', 'lambda')}")
+                    if not users:
+                        continue
+                    rep.fail(rule, f"{short}.{tg}", a, f"`{tg}` is built from a SOP class table when the module is imported ({norm(hit)[:50]}): register_uid() extends the table afterwards, the copy stays as it was - a UID registered at run time is missing from it, and {users[0]}() consults the copy - it decides differently before and after the registration (the unrestricted acceptor stops treating a registered storage UID as storage and rejects it)", mod=m, node=hit)
+    rep.counters["module / class level assignments scanned for registry copies"] = n
+    if not any(f["rule"] == rule for f in rep.failures):
+        rep.ok(rule, f"pynetdicom :: {len(regs)} run-time extensible tables, no import-time copy", "")
